@@ -275,8 +275,7 @@ func H10d2() {
 	sameCtl := hd10SameSeq(hd10Strs(a.doc, 0), hd10Strs(b.doc, 0))
 	if !sameOrder {
 		vClass("source transaction order")
-	}
-	if !sameCtl {
+	} else if !sameCtl {
 		vClass("controller order")
 	}
 	vAssert(sameOrder, "H10d2.same_source_order: the list of source transactions depends on the map iteration order")
